@@ -51,6 +51,9 @@ var ops = []string{
 	// an All run in whose course (after the load, before Execute) the source of package a is edited: the run judges
 	// and records a by its hash AT LOAD TIME, so the next run sees a changed directory
 	"run:late-edit-a",
+	// ONE Executor executed twice, gengo.sum deleted in between (a driver that keeps its context: watch mode): the
+	// second Execute finds no gengo.sum and regenerates everything
+	"run:twice-rmsum",
 }
 
 func isRun(op string) bool { return strings.HasPrefix(op, "run:") }
@@ -287,7 +290,28 @@ func stepDir(c *core.Ctx, cs Case, dir string, t pipe.Tree, op string) (pipe.Tre
 	if op == "run:late-edit-a" {
 		spec.AfterLoad = lateEdit(t, "edit:a")
 	}
+	if op == "run:twice-rmsum" {
+		spec.Again = &pipe.Again{Before: []pipe.FileOp{{Path: "gengo.sum", Remove: true}}}
+	}
 	o := pipe.Exec(spec)
+	if op == "run:twice-rmsum" && o.OK() {
+		if o.Err2 != "" {
+			c.Fail("", cs, "history %v, then one Executor executed twice with gengo.sum deleted in between: the second Execute failed: %s", cs.Ops, o.Err2)
+			return nil, nil, false
+		}
+		second := map[string]bool{}
+		for _, e := range o.Log[o.SecondFrom:] {
+			if e.Kind == "type" {
+				second[strings.TrimPrefix(strings.TrimPrefix(e.Pkg, modPath), "/")] = true
+			}
+		}
+		for _, p := range localPkgs(op, cs.Root) {
+			if !second[p] {
+				c.Fail("", cs, "history %v, then one Executor executed twice with gengo.sum deleted in between: the second Execute skipped package %q as cached although there is no gengo.sum", cs.Ops, p)
+			}
+		}
+		o.Log = o.Log[:o.SecondFrom] // the first Execute is judged like every other run below
+	}
 	if os.Getenv("C08_DEBUG") != "" {
 		fmt.Fprintf(os.Stderr, "DEBUG %s: %+v\n", op, o)
 	}
